@@ -92,7 +92,14 @@ func (s *OpenAPI3Exporter) GenerateOpenAPI3(app *syslwrapper.App) (*openapi3.T, 
 	for k, v := range app.Types {
 		spec.Components.Schemas[k] = s.exportType(v)
 	}
-	for _, v := range app.Endpoints {
+	// endpoints that share a path and method overwrite each other: visit them in name order
+	endpointNames := make([]string, 0, len(app.Endpoints))
+	for endpointName := range app.Endpoints {
+		endpointNames = append(endpointNames, endpointName)
+	}
+	sort.Strings(endpointNames)
+	for _, endpointName := range endpointNames {
+		v := app.Endpoints[endpointName]
 		var method, path string
 		epPath := strings.Split(v.Path, " ")
 		if len(epPath) > 1 {
